@@ -1,1 +1,398 @@
-//! C17: not implemented yet.
+//! C17 — a request-sized buffer always suffices for the server's answer.
+//!
+//! Engine E-IN, differential. Every request of the shared grammar G (see c16.rs) and
+//! every truncation of the shorter ones is handled twice by the real `Server::handle`
+//! (same configuration, key set, clock, reception time):
+//!   * with an answer buffer exactly as long as the request (what the daemon passes), and
+//!   * with a 4096-byte buffer (the server's unconstrained decision and answer).
+//! Oracle (from the statement): whenever the unconstrained run answers, the request-sized
+//! run answers too, with the same answer (compared after removing what is random by
+//! design: AEAD nonces/ciphertexts — the encrypted part is compared as the list of
+//! decrypted field types and lengths — and the NTPv5 server cookie).
+//!
+//! A failing case is classified by *why* the unconstrained answer is longer than the
+//! request, so that independent causes get independent classes:
+//!   C17:v4-uid-min-size        plain NTPv4 answer; the echoed unique-identifier fields were
+//!                              re-encoded with the RFC 7822 minimum sizes (16, last 28) and
+//!                              without that growth the answer would fit
+//!   C17:nts-uid-min-size       same for the authenticated part of an NTS answer (minimum 16)
+//!   C17:nts-short-nonce        the client's authenticator used a nonce shorter than the
+//!                              server's 16 bytes and without that difference it would fit
+//!   C17:nts-uid-min-size+short-nonce   both together are needed to explain the excess
+//!   C17:answer-larger-than-request     any other cause
+//!   C17:dropped-although-it-fits       the unconstrained answer is not longer than the
+//!                                      request and still the request-sized run ignored it
+//!   C17:answers-differ / C17:only-small-answers   the two runs disagree otherwise
+use std::net::IpAddr;
+
+use super::c16::{
+    AField, Answer, AuthState, BIG_BUF, Built, Cfg, Findings, Fld, Handled, KeyEnv, Kind, Local, MAX_DATAGRAM, Out,
+    Req, Session, Sync, T_AUTH, T_UID, Zone, build, client_ip, grammar, key_env, kind_key, make_server, open_nts,
+    run_handle, walk,
+};
+use super::common::{self, Ctx};
+use super::c16::MockClock;
+use crate::{Server, ServerReason, ServerResponse};
+
+/// The answer with everything that is random by design removed.
+fn canon(raw: &[u8], sess: &Session) -> String {
+    let Ok(a) = walk(raw) else {
+        return format!("unwalkable:{}", common::hex(raw));
+    };
+    let mut hdr = raw[..48].to_vec();
+    if a.ver == 5 {
+        hdr[16..24].fill(0);
+    }
+    let mut s = format!("len={};hdr={};", raw.len(), common::hex(&hdr));
+    let opened = open_nts(&a, sess.s2c().as_ref()).ok();
+    for f in &a.fields {
+        if f.ty == T_AUTH {
+            match &opened {
+                Some(o) => {
+                    s.push_str(&format!(
+                        "auth(declared={},nonce={},inner=[{}]);",
+                        f.declared,
+                        o.nonce.len(),
+                        o.inner.iter().map(|i| format!("{:04x}:{}", i.ty, i.declared)).collect::<Vec<_>>().join(",")
+                    ));
+                }
+                None => s.push_str(&format!("auth-unopened(declared={});", f.declared)),
+            }
+        } else {
+            s.push_str(&format!("{:04x}:{}:{}:{};", f.ty, f.declared, common::hex(&f.body), common::hex(&f.pad)));
+        }
+    }
+    s
+}
+
+/// wire size of the request's nonce field part (padded) for the first authenticator
+fn request_nonce_padded(b: &Built) -> Option<usize> {
+    let sp = b.spans.iter().find(|s| s.ty == T_AUTH)?;
+    let o = sp.off;
+    if o + 6 > b.bytes.len() {
+        return None;
+    }
+    let nl = u16::from_be_bytes([b.bytes[o + 4], b.bytes[o + 5]]) as usize;
+    Some((nl + 3) & !3)
+}
+
+/// Why is `big` longer than the request? Returns the class.
+fn classify(b: &Built, big: &Answer) -> &'static str {
+    let excess = big.raw.len() as i64 - b.bytes.len() as i64;
+    // growth of echoed unique identifiers: answer wire size minus the wire size of the
+    // request field with the same body (matched in order)
+    let mut req_uids: Vec<(Vec<u8>, usize)> = vec![];
+    for sp in b.spans.iter().filter(|s| s.ty == T_UID) {
+        let declared = u16::from_be_bytes([b.bytes[sp.off + 2], b.bytes[sp.off + 3]]) as usize;
+        req_uids.push((b.bytes[sp.off + 4..sp.off + declared].to_vec(), sp.wire));
+    }
+    let mut growth_uid = 0i64;
+    let mut cursor = 0usize;
+    for f in big.fields.iter().filter(|f| f.ty == T_UID) {
+        // find the next request uid whose body is a prefix of the answer's (rest zero padding)
+        let mut matched = None;
+        for (k, (body, wire)) in req_uids.iter().enumerate().skip(cursor) {
+            if f.body.len() >= body.len() && f.body[..body.len()] == body[..] && f.body[body.len()..].iter().all(|x| *x == 0) {
+                matched = Some((k, *wire));
+                break;
+            }
+        }
+        match matched {
+            Some((k, wire)) => {
+                cursor = k + 1;
+                growth_uid += f.wire as i64 - wire as i64;
+            }
+            None => return "C17:answer-larger-than-request",
+        }
+    }
+    let has_auth = big.fields.iter().any(|f| f.ty == T_AUTH);
+    let mut growth_nonce = 0i64;
+    if has_auth {
+        if let (Some(req_n), Some(f)) = (request_nonce_padded(b), big.fields.iter().find(|f| f.ty == T_AUTH)) {
+            if f.body.len() >= 2 {
+                let nl = u16::from_be_bytes([f.body[0], f.body[1]]) as usize;
+                growth_nonce = (((nl + 3) & !3) as i64 - req_n as i64).max(0);
+            }
+        }
+    }
+    if growth_uid > 0 && growth_nonce == 0 && excess <= growth_uid {
+        if has_auth {
+            "C17:nts-uid-min-size"
+        } else if big.ver == 4 {
+            "C17:v4-uid-min-size"
+        } else {
+            "C17:answer-larger-than-request"
+        }
+    } else if growth_nonce > 0 && excess <= growth_nonce {
+        "C17:nts-short-nonce"
+    } else if growth_nonce > 0 && growth_uid > 0 && excess <= growth_uid + growth_nonce {
+        "C17:nts-uid-min-size+short-nonce"
+    } else {
+        "C17:answer-larger-than-request"
+    }
+}
+
+/// Two servers with the same configuration, key set, clock and state: one only ever gets
+/// request-sized buffers, the other 4096-byte buffers. (The configurations used here have
+/// the rate-limit cache disabled, so a server carries no state from one datagram to the next.)
+struct Pair {
+    small: Server<MockClock>,
+    big: Server<MockClock>,
+}
+
+impl Pair {
+    fn new(cfg: Cfg, keys: &KeyEnv) -> Pair {
+        Pair {
+            small: make_server(cfg, &Sync::TYPICAL, &keys.server),
+            big: make_server(cfg, &Sync::TYPICAL, &keys.server),
+        }
+    }
+}
+
+fn differential(pair: &mut Pair, b: &Built, ip: IpAddr) -> (Result<Handled, String>, Result<Handled, String>) {
+    let small = run_handle(&mut pair.small, ip, &b.bytes, b.bytes.len());
+    let big = run_handle(&mut pair.big, ip, &b.bytes, BIG_BUF);
+    (small, big)
+}
+
+fn judge(
+    findings: &Findings,
+    loc: Option<&mut Local>,
+    pair: &mut Pair,
+    cfg: Cfg,
+    keys: &KeyEnv,
+    req: &Req,
+    b: &Built,
+    cut: usize,
+) -> String {
+    let sess = req.session();
+    let trace = || format!("{};k{};{};cut={}", cfg.code(), keys.rotated as u8, req.code(), cut);
+    let (small, big) = differential(pair, b, client_ip(0));
+    let mut obs = String::new();
+    let (small, big) = match (small, big) {
+        (Ok(s), Ok(bg)) => (s, bg),
+        (s, bg) => {
+            let msg = format!("panic: small={:?} big={:?}", s.as_ref().err(), bg.as_ref().err());
+            findings.report("C17:panic", b.bytes.len(), || msg.clone(), trace);
+            return msg;
+        }
+    };
+    let mut l = loc;
+    let mut inc = |k: &'static str| {
+        if let Some(l) = l.as_deref_mut() {
+            l.inc(k);
+        }
+    };
+    inc("evaluations");
+    inc("evaluations");
+    match (&small.out, &big.out) {
+        (Out::Ignore, Out::Ignore) => {
+            // "the policy decided to answer" is visible in the statistics: a failed
+            // serialisation of the answer is registered as InternalError
+            let dropped = |regs: &Vec<(u8, bool, ServerReason, ServerResponse)>| regs.iter().any(|r| r.2 == ServerReason::InternalError);
+            if dropped(&small.regs) || dropped(&big.regs) {
+                inc("both_drop_internal_error");
+                findings.report(
+                    "C17:answer-serialization-fails",
+                    b.bytes.len(),
+                    || {
+                        format!(
+                            "policy decided to answer but the answer could not be serialised even into 4096 bytes (request-sized run {:?}, 4096-byte run {:?}); request {} = {}",
+                            small.regs,
+                            big.regs,
+                            req.code(),
+                            common::hex(&b.bytes)
+                        )
+                    },
+                    trace,
+                );
+                obs.push_str("both drop (InternalError)");
+            } else {
+                inc("both_ignore");
+                obs.push_str("both ignore");
+            }
+        }
+        (Out::Respond(sa), Out::Respond(ba)) => {
+            inc("both_answer");
+            if let Ok(a) = walk(ba) {
+                inc(kind_key(a.kind()));
+                if a.fields.iter().any(|f| f.ty == T_AUTH) {
+                    inc("answers_nts");
+                }
+                if ba.len() == b.bytes.len() {
+                    inc("answer_exactly_request_sized");
+                }
+            }
+            let (cs, cb) = (canon(sa, &sess), canon(ba, &sess));
+            if cs != cb {
+                findings.report(
+                    "C17:answers-differ",
+                    b.bytes.len(),
+                    || format!("request-sized buffer: {cs}  4096-byte buffer: {cb}"),
+                    trace,
+                );
+            }
+            if small.regs != big.regs {
+                findings.report(
+                    "C17:statistics-differ",
+                    b.bytes.len(),
+                    || format!("request-sized buffer registered {:?}, 4096-byte buffer {:?}", small.regs, big.regs),
+                    trace,
+                );
+            }
+            obs.push_str(&format!("both answer {} bytes", ba.len()));
+        }
+        (Out::Respond(sa), Out::Ignore) => {
+            findings.report(
+                "C17:only-small-answers",
+                b.bytes.len(),
+                || format!("request-sized run answered {} bytes, 4096-byte run ignored", sa.len()),
+                trace,
+            );
+            obs.push_str("only small answers");
+        }
+        (Out::Ignore, Out::Respond(ba)) => {
+            inc("dropped");
+            // statistics of the dropped run: the statement's "silently dropped"
+            if small.regs.iter().any(|r| r.2 == ServerReason::InternalError && r.3 == ServerResponse::Ignore) {
+                inc("dropped_registered_internal_error");
+            }
+            let class = if ba.len() <= b.bytes.len() {
+                "C17:dropped-although-it-fits"
+            } else {
+                match walk(ba) {
+                    Ok(a) => classify(b, &a),
+                    Err(_) => "C17:answer-larger-than-request",
+                }
+            };
+            let kind = walk(ba).map(|a| a.kind());
+            findings.report(
+                class,
+                b.bytes.len(),
+                || {
+                    format!(
+                        "policy answers ({:?}, {} bytes with a 4096-byte buffer) but the {}-byte request-sized buffer drops it; \
+                         small run registered {:?}; request {} = {}",
+                        kind,
+                        ba.len(),
+                        b.bytes.len(),
+                        small.regs,
+                        req.code(),
+                        common::hex(&b.bytes)
+                    )
+                },
+                trace,
+            );
+            obs.push_str(&format!("dropped: {} > {} -> {}", ba.len(), b.bytes.len(), class));
+        }
+    }
+    obs
+}
+
+fn replay(ctx: &Ctx, trace: &str) -> String {
+    // "<cfg>;k<0|1>;<req code>;cut=<n>"
+    let p: Vec<&str> = trace.split(';').collect();
+    if p.len() != 4 {
+        return format!("unparseable trace {trace:?}");
+    }
+    let (Some(cfg), Some(req)) = (Cfg::parse(p[0]), Req::parse(p[2])) else {
+        return format!("unparseable trace {trace:?}");
+    };
+    let keys = key_env(p[1] == "k1");
+    let cut: usize = p[3].trim_start_matches("cut=").parse().unwrap_or(usize::MAX);
+    let full = build(&req, &keys);
+    let cut = cut.min(full.bytes.len()).min(MAX_DATAGRAM);
+    let b = full.truncated(cut);
+    let findings = Findings::new();
+    let mut pair = Pair::new(cfg, &keys);
+    let obs = judge(&findings, None, &mut pair, cfg, &keys, &req, &b, cut);
+    findings.flush(ctx);
+    obs
+}
+
+#[test]
+fn check() {
+    let ctx = Ctx::new("C17");
+    if let Some(t) = common::replay_trace() {
+        let a = replay(&ctx, &t);
+        let b = replay(&ctx, &t);
+        common::report_replay("C17", &a, &b, ctx.violation_count() > 0);
+        return;
+    }
+    let thorough = !ctx.quick();
+    ctx.rule(
+        "grammar G of c16.rs (all words of <=3 extension-field symbols per version x MAC variants, v3 tails, capped at 1024 bytes) \
+         and every truncation of requests with <=2 symbols (quick: in the open configuration; thorough: <=3 symbols), each handled \
+         by two identically configured servers: request-sized buffer vs 4096-byte buffer; configurations {open, denylist->DENY, require-NTS->DENY, \
+         only-v4} x key-set state {rotated twice, fresh}. Distinct & non-trivial = an (environment, request, cut) whose unconstrained \
+         run answers.",
+    );
+    ctx.assume("AEAD nonces, fresh cookies and the NTPv5 server cookie are random by design; answers are compared after decrypting the encrypted part with the client's s2c key and masking those values");
+    let reqs = grammar(thorough, 3);
+    ctx.set("grammar_requests", reqs.len() as u64);
+    let findings = Findings::new();
+    let envs: Vec<(Cfg, bool, bool)> = vec![
+        // (configuration, rotated key set, with truncations)
+        (Cfg::Open, true, true),
+        (Cfg::DenyList, false, thorough),
+        (Cfg::RequireNtsDeny, true, thorough),
+        (Cfg::OnlyV4, false, false),
+        (Cfg::Open, false, false),
+    ];
+    let trunc_len = if thorough { 3 } else { 2 };
+    for (ei, (cfg, rotated, trunc)) in envs.iter().enumerate() {
+        let keys = key_env(*rotated);
+        common::par_for_with(
+            reqs.len() as u64,
+            32,
+            || (Local::new(&ctx), Pair::new(*cfg, &keys)),
+            |(loc, pair), i| {
+                let req = &reqs[i as usize];
+                let mut full = build(req, &keys);
+                if full.bytes.len() > MAX_DATAGRAM {
+                    full = full.truncated(MAX_DATAGRAM);
+                    loc.inc("capped_to_1024");
+                }
+                let n_sym = req.fields.iter().filter(|f| !matches!(f, Fld::Draft(true))).count();
+                let n = full.bytes.len();
+                let cuts: Vec<usize> = if *trunc && n_sym <= trunc_len { (0..=n).collect() } else { vec![n] };
+                for cut in cuts {
+                    let b = if cut == n { full.clone() } else { full.truncated(cut) };
+                    let obs = judge(&findings, Some(loc), pair, *cfg, &keys, req, &b, cut);
+                    if !obs.starts_with("both ignore") {
+                        loc.distinct(common::hash_of(&(cfg, rotated, req, cut)));
+                    }
+                }
+            },
+        );
+        if ctx.over_budget() && ei + 1 < envs.len() {
+            ctx.cap_hit(&format!("budget reached after {} of {} environments", ei + 1, envs.len()));
+            findings.flush(&ctx);
+            ctx.exhaustive(false);
+            ctx.finish();
+            return;
+        }
+    }
+    // a few human readable samples
+    let keys = key_env(true);
+    for code in [
+        "v4.m3.p6.l0.g0.a0||m0",
+        "v4.m3.p6.l0.g0.a0|u32,cC0,Aok()|m0",
+        "v4.m3.p6.l0.g0.a0|u0,u0|m24",
+        "v4.m3.p6.l0.g0.a0|u4,cC0,Aok()|m0",
+        "v5.m3.p6.l0.g0.a0|u32,cC0,d1,An8()|m0",
+    ] {
+        if let Some(r) = Req::parse(code) {
+            let b = build(&r, &keys);
+            let f = Findings::new();
+            let mut pair = Pair::new(Cfg::Open, &keys);
+            let o = judge(&f, None, &mut pair, Cfg::Open, &keys, &r, &b, b.bytes.len());
+            ctx.sample(format!("{code} ({} bytes) -> {o}", b.bytes.len()));
+        }
+    }
+    findings.flush(&ctx);
+    ctx.set("transitions", ctx.get("evaluations"));
+    ctx.set("states", ctx.get("grammar_requests"));
+    ctx.exhaustive(true);
+    ctx.finish();
+}
